@@ -300,8 +300,14 @@ bool kirsch_bounded_kfifo_queue<T, Policies...>::committed(const marked_idx& tai
     return true;
   }
 
-  marked_idx tail_current = _tail.load(std::memory_order_relaxed);
-  marked_idx head_current = _head.load(std::memory_order_relaxed);
+  // head_current and tail_current have to form a consistent snapshot - an outdated tail combined with
+  // a fresh head (or vice versa) can make a segment that is no longer part of the queue look valid.
+  marked_idx tail_current;
+  marked_idx head_current;
+  do {
+    tail_current = _tail.load(std::memory_order_relaxed);
+    head_current = _head.load(std::memory_order_relaxed);
+  } while (tail_current != _tail.load(std::memory_order_relaxed));
   if (in_valid_region(tail_old.get(), tail_current.get(), head_current.get())) {
     return true;
   }
